@@ -256,7 +256,9 @@ def run(tier='quick', seed=0, jobs=1):
         big_row = _row('cell_type_mapper.anndata_iterator.anndata_iterator.AnnDataRowIterator.__next__',
                        'seeded random matrices 31x23 and 61x47 with 150-900 stored values (empty rows and '
                        'columns included) x {CSC, CSR, dense} x CSC budget {1e-7, 1e-5, 10} GB x '
-                       'row_chunk_size {1, 13, n_rows, n_rows+5}')
+                       'row_chunk_size {1, 13, n_rows, n_rows+5}; a block-diagonal 40x40 CSC matrix at budgets '
+                       '{1e-9, 1e-7, 1e-6, 10}; float64 fractions and counts above 2**24 (int64, uint32) in all '
+                       'three encodings')
         big_row['form'] = 'seeded-random'
         try:
             nprng = np.random.default_rng(seed * 7 + 3)
@@ -271,6 +273,23 @@ def run(tier='quick', seed=0, jobs=1):
                         for size in sizes:
                             check_iteration(big_row, a.tolist(), f'random-{nr}x{nc}', encoding, None, np.float32,
                                             None, size, gb, True, root, random_access=12)
+            # structured sparsity: a block-diagonal matrix (whole groups of columns hold no entry for
+            # a block of rows) at budgets small enough for several row blocks and load chunks
+            bd = np.zeros((40, 40))
+            for b0 in range(0, 40, 10):
+                bd[b0:b0 + 10, b0:b0 + 10] = nprng.integers(1, 9, size=(10, 10)) * (nprng.random((10, 10)) < 0.55)
+            for gb in (1e-9, 1e-7, 1e-6, 10):
+                for size in ((7, 40) if tier == 'quick' else (1, 7, 40, 45)):
+                    check_iteration(big_row, bd.tolist(), 'block-diagonal-40x40', 'csc', None, np.float32,
+                                    None, size, gb, True, root, random_access=12)
+            # values that single precision cannot hold: float64 fractions, counts above 2**24
+            f64 = (nprng.random((12, 9)) * 1000.0 + 1.0 / 3.0) * (nprng.random((12, 9)) < 0.5)
+            big_counts = (nprng.integers(2**24 + 1, 2**31 - 1, size=(12, 9)) | 1) * (nprng.random((12, 9)) < 0.5)
+            for nm, mat, dt in (('float64-fractions', f64, np.float64), ('int64-large-counts', big_counts, np.int64),
+                                ('uint32-large-counts', big_counts, np.uint32)):
+                for encoding in ('csc', 'csr', 'dense'):
+                    check_iteration(big_row, mat.tolist(), nm, encoding, None, dt, None, 5, 10, True, root,
+                                    random_access=6)
             out.append(_done(big_row))
         except BaseException as e:   # noqa
             if isinstance(e, (KeyboardInterrupt, SystemExit)):
